@@ -927,9 +927,11 @@ structure RecTot (env : Env) (r : Rec) : Prop where
   evalExpr : ∀ e, ExprWf e → Tot (r.evalExpr env e)
   execList : ∀ l, StmtsWf l → Tot (r.execList env l)
   isSetE : ∀ e, ExprWf e → Tot (r.isSetE env e)
+  /-- evaluating a bare `_` never yields a value (it is "unexpected node type", an error) -/
+  under : ∀ loc, TotQ (fun _ => False) (r.evalExpr env (.underscore loc))
 
 theorem recTot_bottom (env : Env) : RecTot env Rec.bottom :=
-  ⟨fun _ _ => tot_outOfFuel, fun _ _ => tot_outOfFuel, fun _ _ => tot_outOfFuel⟩
+  ⟨fun _ _ => tot_outOfFuel, fun _ _ => tot_outOfFuel, fun _ _ => tot_outOfFuel, fun _ => ⟨fun _ _ => trivial⟩⟩
 
 /-- closes `Tot` goals built from binds, ifs and matches over known pieces; stops at a crash site
     that is not allowed -/
@@ -1099,7 +1101,7 @@ theorem typed_nil (sig : Sig) : Typed sig [] := by
 
 /-- `evaluateArgs` -/
 theorem totq_evaluateArgs (hr : RecTot env r) (sig : Sig) (a : Args) (hw : ExprsWf a.exprs)
-    (hs : SlotOk a.exprs a.hasSlot) :
+    (hs : a.piped.isNone = true → SlotOk a.exprs a.hasSlot) :
     TotQ (fun res => ∀ args, res = .ok args → Typed sig args) (evaluateArgs r env sig a) := by
   have hl := totq_evalArgsLoop hr sig a
   unfold evaluateArgs
@@ -1112,9 +1114,10 @@ theorem totq_evaluateArgs (hr : RecTot env r) (sig : Sig) (a : Args) (hw : Exprs
     · rename_i har
       have hp : ∀ e ∈ a.exprs, isUnderscore e = true → a.piped.isSome = true := by
         intro e he hu
-        have := hs (any_of_mem he hu)
         cases hpi : a.piped with
-        | none => simp [this, hpi] at hguard
+        | none =>
+          have := hs (by rw [hpi]; rfl) (any_of_mem he hu)
+          simp [this, hpi] at hguard
         | some p => rfl
       have harity : sig.variadic.isSome = true ∨ a.num = sig.params.length := by
         cases hv : sig.variadic with
@@ -1248,7 +1251,7 @@ theorem tot_applyJetFunc (he : EnvWf env) (hr : RecTot env r) (id : String) (a :
 
 /-- `unreachable: call of non-func`: every caller has tested the kind -/
 theorem totq_callValue (he : EnvWf env) (hr : RecTot env r) (fn : Val) (a : Args) (hk : kindIsFunc fn = true)
-    (hw : ExprsWf a.exprs) (hs : SlotOk a.exprs a.hasSlot) : Tot (callValue r env fn a) := by
+    (hw : ExprsWf a.exprs) (hs : a.piped.isNone = true → SlotOk a.exprs a.hasSlot) : Tot (callValue r env fn a) := by
   have h1 := tot_applyJetFunc he hr
   have h3 : ∀ logs : List LogE, Tot (modifyRT fun rt => { rt with log := logs.reverse ++ rt.log }) :=
     fun logs => tot_modify_log (fun l => logs.reverse ++ l)
@@ -1290,9 +1293,635 @@ theorem totq_callValue (he : EnvWf env) (hr : RecTot env r) (fn : Val) (a : Args
           (fun sig' h' => by rw [hsig] at h'; cases h'; exact hres args rfl))) fun x => tot_pure _
 
 theorem tot_callAt (he : EnvWf env) (hr : RecTot env r) (loc : Loc) (fn : Val) (a : Args) (hk : kindIsFunc fn = true)
-    (hw : ExprsWf a.exprs) (hs : SlotOk a.exprs a.hasSlot) : Tot (callAt r env loc fn a) := by
+    (hw : ExprsWf a.exprs) (hs : a.piped.isNone = true → SlotOk a.exprs a.hasSlot) : Tot (callAt r env loc fn a) := by
   have h1 := totq_callValue he hr fn a hk hw hs
   unfold callAt
   tot_tac [h1]
+
+variable {env : Env} {r : Rec}
+
+theorem tot_errAt_bind {α β} (l : Loc) (s : String) (f : α → M β) : Tot ((errAt l s : M α) >>= f) :=
+  ⟨fun _ h => h⟩
+theorem tot_unsupported_bind {α β} (s : String) (f : α → M β) : Tot ((unsupported s : M α) >>= f) :=
+  ⟨fun _ _ => trivial⟩
+
+/-- `evalPrimaryExpressionGroup` / `evalBaseExpressionGroup` -/
+theorem tot_evalExprF (he : EnvWf env) (hr : RecTot env r) (e : Expr) (hw : ExprWf e) : Tot (evalExprF r env e) := by
+  have hev := hr.evalExpr
+  cases e with
+  | call loc base args ann hasSlot =>
+    rw [ExprWf] at hw
+    obtain ⟨hb, ha, hs⟩ := hw
+    unfold evalExprF
+    dsimp only
+    refine Tot.bind (hev base hb) fun fv => ?_
+    split
+    · exact tot_unsupported _
+    · split
+      · exact tot_errAt _ _
+      · rename_i hk
+        exact tot_callAt he hr loc fv _ (by simpa using hk) ha (fun _ => hs)
+  | slice loc base i j =>
+    rw [ExprWf] at hw
+    obtain ⟨hb, hi, hj⟩ := hw
+    unfold evalExprF
+    dsimp only
+    refine Tot.bind (hev base hb) fun bv => ?_
+    have hnum : ∀ x, ExprWf x → Tot (do
+        let v ← r.evalExpr env x
+        match v with
+        | .int n => pure n
+        | .uint n => pure (Val.wrapI n)
+        | .float f => liftOpt "int64(float)" (floatToInt f)
+        | .opaque _ | .hidden _ => unsupported "slice index"
+        | _ => errAt x.loc "non numeric value in index expression" : M Int) := by
+      intro x hx
+      tot_tac [hev]
+    cases i <;> cases j <;> simp only [ExprOWf] at hi hj <;> cases bv <;> dsimp only <;>
+      first
+        | exact tot_errAt_bind _ _ _
+        | exact tot_unsupported_bind _ _
+        | tot_tac [hev]
+  | mul loc op l rgt =>
+    rw [ExprWf] at hw
+    obtain ⟨hl, hrg, hop⟩ := hw
+    have hm := fun a c => ptot_evalMultiplicative l.loc rgt.loc op a c hop
+    unfold evalExprF
+    tot_tac [hev, hm]
+  | add loc isPlus l rgt =>
+    rw [ExprWf] at hw
+    obtain ⟨hl, hrg⟩ := hw
+    cases l with
+    | none => unfold evalExprF; dsimp only; tot_tac [hev]
+    | some le => rw [ExprOWf] at hl; unfold evalExprF; dsimp only; tot_tac [hev]
+  | chain loc base fields => rw [ExprWf] at hw; unfold evalExprF; dsimp only; tot_tac [hev]
+  | cmp loc isNeq l rgt => rw [ExprWf] at hw; obtain ⟨h1, h2⟩ := hw; unfold evalExprF; dsimp only; tot_tac [hev]
+  | numcmp loc op l rgt => rw [ExprWf] at hw; obtain ⟨h1, h2⟩ := hw; unfold evalExprF; dsimp only; tot_tac [hev]
+  | logic loc isAnd l rgt => rw [ExprWf] at hw; obtain ⟨h1, h2⟩ := hw; unfold evalExprF; dsimp only; tot_tac [hev]
+  | not loc x => rw [ExprWf] at hw; unfold evalExprF; dsimp only; tot_tac [hev]
+  | ternary loc c l rgt => rw [ExprWf] at hw; obtain ⟨h1, h2, h3⟩ := hw; unfold evalExprF; dsimp only; tot_tac [hev]
+  | index loc base idx => rw [ExprWf] at hw; obtain ⟨h1, h2⟩ := hw; unfold evalExprF; dsimp only; tot_tac [hev]
+  | ident loc name => unfold evalExprF; dsimp only; tot_tac
+  | field loc names => unfold evalExprF; dsimp only; tot_tac
+  | underscore loc => unfold evalExprF; dsimp only; tot_tac
+  | nilLit loc => unfold evalExprF; dsimp only; tot_tac
+  | boolLit loc b => unfold evalExprF; dsimp only; tot_tac
+  | strLit loc s => unfold evalExprF; dsimp only; tot_tac
+  | numLit loc a b c i u f => unfold evalExprF; dsimp only; tot_tac
+
+theorem tot_isSetBody (hr : RecTot env r) (e : Expr) (hw : ExprWf e) : Tot (isSetBody r env e) := by
+  have hev := hr.evalExpr
+  have hs := hr.isSetE
+  cases e with
+  | index loc base idx => rw [ExprWf] at hw; obtain ⟨h1, h2⟩ := hw; unfold isSetBody; dsimp only; tot_tac [hev, hs]
+  | chain loc base fields => rw [ExprWf] at hw; unfold isSetBody; dsimp only; tot_tac [hev, hs]
+  | _ => unfold isSetBody; dsimp only; tot_tac
+
+theorem tot_isSetF (hr : RecTot env r) (e : Expr) (hw : ExprWf e) : Tot (isSetF r env e) :=
+  tot_recoverFalse (tot_isSetBody hr e hw)
+
+/-! #### statements -/
+
+/-- `interface conversion in executeSet`: the left side is an identifier, a field, a chain or `_`
+    (evaluating `_` is an error, not a panic) -/
+theorem tot_executeSet (hr : RecTot env r) (l : Expr) (v : Val) (hl : LeftSetOk l) : Tot (executeSet r env l v) := by
+  have hev := hr.evalExpr
+  cases l <;> try (exact hl.elim)
+  all_goals (unfold executeSet; dsimp only; try (tot_tac; done))
+  -- `_`
+  rename_i loc
+  exact TotQ.bind (hr.under loc) fun _ hf => hf.elim
+
+variable {env : Env} {r : Rec}
+
+/-- `interface conversion: not *IdentifierNode`: `:=` only declares identifiers -/
+theorem tot_assignOne (hr : RecTot env r) (isLet : Bool) (l : Expr) (v : Val) (hl : LeftOk isLet l) :
+    Tot (assignOne r env isLet l v) := by
+  have hes := fun l hl => tot_executeSet hr l v hl
+  cases isLet <;> cases l <;> (try (simp [LeftOk] at hl; done)) <;>
+    (unfold assignOne; simp only [isUnderscore, leftName]; tot_tac [hes]) <;> first | exact True.intro | (exfalso; simp_all; done)
+
+/-- `index out of range [i] in assignment`: a right side per left side -/
+theorem tot_assignLoop (hr : RecTot env r) (isLet : Bool) :
+    ∀ ls rs, (∀ l ∈ ls, LeftOk isLet l) → ExprsWf rs → ls.length ≤ rs.length →
+      Tot (assignLoop r env isLet ls rs) := by
+  have hev := hr.evalExpr
+  intro ls
+  induction ls with
+  | nil => intro rs _ _ _; unfold assignLoop; exact tot_pure _
+  | cons l ls ih =>
+    intro rs hl hw hlen
+    cases rs with
+    | nil => simp at hlen
+    | cons rgt rs =>
+      rw [ExprsWf] at hw
+      unfold assignLoop
+      exact Tot.bind (hev rgt hw.1) fun v =>
+        Tot.bind (tot_assignOne hr isLet l v (hl l List.mem_cons_self)) fun _ =>
+          ih rs (fun l' h' => hl l' (List.mem_cons_of_mem _ h')) hw.2 (by simpa using hlen)
+
+/-- `index out of range in lookup assignment` -/
+theorem tot_executeAssign (hr : RecTot env r) (s : SetN) (hs : SetWf s) : Tot (executeAssign r env s) := by
+  have hev := hr.evalExpr
+  unfold executeAssign
+  cases hlk : s.lookup with
+  | false =>
+    simp only [Bool.false_eq_true, ↓reduceIte]
+    exact tot_assignLoop hr s.isLet s.left s.right hs.left hs.right (hs.len hlk)
+  | true =>
+    obtain ⟨l0, l1, rgt, rest, h1, h2⟩ := hs.look hlk
+    have hw := hs.right
+    have hl := hs.left
+    rw [h2, ExprsWf] at hw
+    rw [h1] at hl
+    simp only [↓reduceIte]
+    rw [h1, h2]
+    dsimp only
+    exact Tot.bind (hev rgt hw.1) fun v =>
+      Tot.bind (tot_assignOne hr s.isLet l0 v (hl l0 (by simp))) fun _ =>
+        tot_assignOne hr s.isLet l1 _ (hl l1 (by simp))
+
+theorem tot_safeWriterLoop (hr : RecTot env r) (sw : String) : ∀ es, ExprsWf es → Tot (safeWriterLoop r env sw es) := by
+  have hev := hr.evalExpr
+  intro es
+  induction es with
+  | nil => intro _; unfold safeWriterLoop; tot_tac
+  | cons e rest ih =>
+    intro hw
+    rw [ExprsWf] at hw
+    obtain ⟨h1, h2⟩ := hw
+    have := ih h2
+    unfold safeWriterLoop; tot_tac [hev]
+
+theorem tot_evalSafeWriter (hr : RecTot env r) (sw : String) (piped : Option Val) (args : List Expr)
+    (hw : ExprsWf args) : Tot (evalSafeWriter r env sw piped args) := by
+  have h1 := tot_safeWriterLoop hr sw args hw
+  unfold evalSafeWriter
+  tot_tac
+
+theorem tot_evalCommand (he : EnvWf env) (hr : RecTot env r) (c : Cmd) (hc : CmdWf true c) : Tot (evalCommand r env c) := by
+  have hev := hr.evalExpr
+  have hb := hc.base
+  have h1 := fun sw p => tot_evalSafeWriter hr sw p c.args hc.args
+  have h2 : ∀ fn, kindIsFunc fn = true →
+      Tot (callAt r env c.base.loc fn { exprs := c.args, hasSlot := c.hasSlot, piped := none }) :=
+    fun fn hk => tot_callAt he hr _ fn _ hk hc.args (fun _ => hc.slot rfl)
+  unfold evalCommand
+  tot_tac [hev, h1, h2]
+
+theorem tot_evalCommandPipe (he : EnvWf env) (hr : RecTot env r) (c : Cmd) (v : Val) (hc : CmdWf false c) :
+    Tot (evalCommandPipe r env c v) := by
+  have hev := hr.evalExpr
+  have hb := hc.base
+  have h1 := fun sw p => tot_evalSafeWriter hr sw p c.args hc.args
+  have h2 : ∀ fn, ¬ (!kindIsFunc fn) = true →
+      Tot (callAt r env c.base.loc fn { exprs := c.args, hasSlot := c.hasSlot, piped := some v }) :=
+    fun fn hk => tot_callAt he hr _ fn _ (by simpa using hk) hc.args (fun h => by cases h)
+  unfold evalCommandPipe
+  tot_tac [hev, h1, h2]
+
+theorem tot_pipelineLoop (he : EnvWf env) (hr : RecTot env r) :
+    ∀ cs acc, (∀ c ∈ cs, CmdWf false c) → Tot (pipelineLoop r env acc cs) := by
+  intro cs
+  induction cs with
+  | nil => intro acc _; unfold pipelineLoop; tot_tac
+  | cons c cs ih =>
+    intro acc hw
+    have h1 := fun v => tot_evalCommandPipe he hr c v (hw c List.mem_cons_self)
+    have h2 := fun acc => ih acc (fun c' h' => hw c' (List.mem_cons_of_mem _ h'))
+    unfold pipelineLoop; tot_tac [h1, h2]
+
+/-- `index out of range [0] with length 0`: a pipeline has a first command -/
+theorem tot_evalPipeline (he : EnvWf env) (hr : RecTot env r) (p : Pipe) (hp : PipeWf p) : Tot (evalPipeline r env p) := by
+  unfold PipeWf at hp
+  unfold evalPipeline
+  cases hc : p.cmds with
+  | nil => rw [hc] at hp; exact hp.elim
+  | cons c0 rest =>
+    rw [hc] at hp
+    dsimp only
+    exact Tot.bind (tot_evalCommand he hr c0 hp.1) fun first => tot_pipelineLoop he hr rest first hp.2
+
+/-- `yield content`: the closure holds well-formed syntax -/
+theorem tpost_invokeContent (hr : RecTot env r) (c : Closure) (ctxE : Option Expr) (hx : ExprOWf ctxE) (rt : RT)
+    (h : RWF rt) (hc : ClosureWf c) : TPost (fun _ => True) (invokeContent r env c ctxE rt) := by
+  have hev := hr.evalExpr
+  have hl := hr.execList
+  cases c with
+  | mk body sc outer =>
+    obtain ⟨h1, h2⟩ := (ClosureWf.mk_iff _ _ _).mp hc
+    unfold invokeContent
+    refine tpost_withScopeContentD sc outer ?_ rt h h2
+    cases ctxE with
+    | none => dsimp only; tot_tac [hl]
+    | some e => rw [ExprOWf] at hx; dsimp only; tot_tac [hev, hl]
+
+theorem tot_bindYieldParams (hr : RecTot env r) (loc : Loc) :
+    ∀ ps, ParamsWf ps → Tot (bindYieldParams r env loc ps) := by
+  have hev := hr.evalExpr
+  intro ps
+  induction ps with
+  | nil => intro _; unfold bindYieldParams; tot_tac
+  | cons p ps ih =>
+    intro hw
+    have h1 := hw p List.mem_cons_self
+    have h2 := ih (fun q hq => hw q (List.mem_cons_of_mem _ hq))
+    unfold bindYieldParams
+    cases hd : p.dflt with
+    | none => dsimp only; exact tot_errAt _ _
+    | some e => rw [hd, ExprOWf] at h1; dsimp only; tot_tac [hev]
+
+theorem tot_bindBlockParams (hr : RecTot env r) : ∀ ps, ParamsWf ps → Tot (bindBlockParams r env ps) := by
+  have hev := hr.evalExpr
+  intro ps
+  induction ps with
+  | nil => intro _; unfold bindBlockParams; tot_tac
+  | cons p ps ih =>
+    intro hw
+    have h1 := hw p List.mem_cons_self
+    have h2 := ih (fun q hq => hw q (List.mem_cons_of_mem _ hq))
+    unfold bindBlockParams
+    cases hd : p.dflt with
+    | none => dsimp only; tot_tac
+    | some e => rw [hd, ExprOWf] at h1; dsimp only; tot_tac [hev]
+
+theorem getRT_bind' {α} (f : RT → M α) (rt : RT) : (getRT >>= f) rt = f rt rt := rfl
+
+theorem tot_yieldBody (hr : RecTot env r) (block : BlockN) (hb : StmtsWf block.body) (ctxE : Option Expr)
+    (hx : ExprOWf ctxE) (content : Option (List Stmt)) (hc : StmtsOWf content) :
+    Tot (yieldBody r env block ctxE content) := by
+  have hev := hr.evalExpr
+  have hl := hr.execList
+  refine ⟨fun rt h => ?_⟩
+  unfold yieldBody
+  rw [getRT_bind']
+  have hrun : Tot (match (generalizing := false) ctxE with
+      | some e => do
+        let nv ← r.evalExpr env e
+        withCtxND nv (do let _ ← r.execList env block.body; pure ())
+      | none => do
+        let _ ← r.execList env block.body
+        pure () : M Unit) := by
+    cases ctxE with
+    | none => dsimp only; tot_tac [hl]
+    | some e => rw [ExprOWf] at hx; dsimp only; tot_tac [hev, hl]
+  cases content with
+  | none => dsimp only; exact tpost_withContentND _ hrun rt h h.content
+  | some body =>
+    rw [StmtsOWf] at hc
+    dsimp only
+    refine tpost_withContentND _ hrun rt h ?_
+    intro c' hc'
+    cases hc'
+    exact (ClosureWf.mk_iff _ _ _).mpr ⟨hc, h.content⟩
+
+theorem tot_executeYieldBlock (hr : RecTot env r) (loc : Loc) (block : BlockN) (hb : StmtsWf block.body)
+    (bp yp : List Param) (hbp : ParamsWf bp) (hyp : ParamsWf yp) (ctxE : Option Expr) (hx : ExprOWf ctxE)
+    (content : Option (List Stmt)) (hc : StmtsOWf content) :
+    Tot (executeYieldBlock r env loc block bp yp ctxE content) := by
+  have h1 := tot_bindYieldParams hr loc yp hyp
+  have h2 := tot_bindBlockParams hr bp hbp
+  have h3 := tot_yieldBody hr block hb ctxE hx content hc
+  unfold executeYieldBlock
+  tot_tac
+
+variable {env : Env} {r : Rec}
+
+theorem locateP_ok {α} (loc : Loc) (p : P α) (a : α) (h : locateP loc p = .ok a) : p = .ok a := by
+  cases p with
+  | ok x => exact h
+  | error f =>
+    cases f with
+    | err e =>
+      have hl : locateP loc (.error (.err e) : P α) =
+          if e.located then .error (.err e) else .error (.err { e with located := true, loc := loc }) := rfl
+      rw [hl] at h
+      split at h <;> cases h
+    | crash m => cases h
+    | unsupported w => cases h
+
+theorem totq_liftOpt {α} (w : String) (o : Option α) : TotQ (fun a => o = some a) (liftOpt w o : M α) := by
+  cases o with
+  | none => exact totq_unsupported w
+  | some a => exact totq_pure a rfl
+
+theorem tot_executeInclude (he : EnvWf env) (hr : RecTot env r) (loc : Loc) (nameE : Expr) (hn : ExprWf nameE)
+    (ctxE : Option Expr) (hx : ExprOWf ctxE) : Tot (executeInclude r env loc nameE ctxE) := by
+  have hev := hr.evalExpr
+  have hl := hr.execList
+  unfold executeInclude
+  refine Tot.bind (hev nameE hn) fun nameV => ?_
+  split
+  · exact tot_errAt _ _
+  · refine Tot.bind (by tot_tac) fun name => ?_
+    refine TotQ.bind (totq_liftP (Q := fun t => TmplWf t) _ (ptot_locateP _ (ptot_getSibling _ _ _))
+      (fun t ht => getSibling_wf he _ _ _ (locateP_ok _ _ _ ht))) fun t ht => ?_
+    apply tot_withNewScopeD
+    refine Tot.bind (tot_setBlocks _ ht.blocks) fun _ => ?_
+    refine TotQ.bind (totq_liftOpt _ _) fun root hroot => ?_
+    have hrw := (rootOf_wf he _ _ _ ht hroot).root
+    cases ctxE with
+    | none => dsimp only; exact hl _ hrw
+    | some e => rw [ExprOWf] at hx; dsimp only; exact tot_withCtxD (hev e hx) (hl _ hrw)
+
+/-- `index out of range` in a range header: the slot that is bound has a left side -/
+theorem tot_rangeBind (hr : RecTot env r) (set : Option SetN) (slot : Option Nat) (v : Val)
+    (h : ∀ st k, set = some st → slot = some k → ∃ l, st.left[k]? = some l ∧ RangeLeftOk st.isLet l) :
+    Tot (rangeBind r env set slot v) := by
+  unfold rangeBind
+  split
+  · rename_i k st
+    obtain ⟨l, h1, h2⟩ := h st k rfl rfl
+    rw [h1]
+    dsimp only
+    split
+    · tot_tac
+    · rename_i hlet
+      rcases h2 with h2 | h2
+      · exact absurd h2 hlet
+      · split
+        · exact tot_pure _
+        · exact tot_executeSet hr l v h2
+  · exact tot_pure _
+
+theorem tot_rangeLoop (hr : RecTot env r) (set : Option SetN) (ks vs : Option Nat)
+    (hks : ∀ st k, set = some st → ks = some k → ∃ l, st.left[k]? = some l ∧ RangeLeftOk st.isLet l)
+    (hvs : ∀ st k, set = some st → vs = some k → ∃ l, st.left[k]? = some l ∧ RangeLeftOk st.isLet l)
+    (body : List Stmt) (hb : StmtsWf body) (els : Option (List Stmt)) (hels : StmtsOWf els) :
+    ∀ f st first, Tot (rangeLoop r env set ks vs body els f st first) := by
+  have hl := hr.execList
+  have hb1 := fun v => tot_rangeBind hr set ks v hks
+  have hb2 := fun v => tot_rangeBind hr set vs v hvs
+  have hel : Tot (match els with
+      | some l => r.execList env l
+      | none => pure .invalid) := by
+    cases els with
+    | none => exact tot_pure _
+    | some l => exact hl l hels
+  intro f
+  induction f with
+  | zero => intro st first; unfold rangeLoop; tot_tac
+  | succ f ih => intro st first; unfold rangeLoop; tot_tac [hl, hb1, hb2, ih]
+
+theorem tot_rangeCore (hr : RecTot env r) (loc : Loc) (set : Option SetN)
+    (hset : ∀ st, set = some st → RangeSetWf st) (ex : Val)
+    (body : List Stmt) (hb : StmtsWf body) (els : Option (List Stmt)) (hels : StmtsOWf els) :
+    Tot (rangeCore r env loc set ex body els) := by
+  unfold rangeCore
+  dsimp only
+  refine Tot.bind (tot_liftP _ (ptot_locateP _ (ptot_getRanger _))) fun rg => ?_
+  apply tot_rangeLoop hr set _ _ _ _ body hb els hels
+  · intro st k hs hk
+    subst hs
+    have hw := hset st rfl
+    simp at hk
+    subst hk
+    cases hl : st.left with
+    | nil => exact absurd hl hw.leftNe
+    | cons l ls => exact ⟨l, rfl, hw.left l (by rw [hl]; exact List.mem_cons_self)⟩
+  · intro st k hs hk
+    subst hs
+    have hw := hset st rfl
+    simp at hk
+    obtain ⟨hlen, rfl⟩ := hk
+    have hlt : 1 < st.left.length := hlen
+    exact ⟨st.left[1], List.getElem?_eq_getElem hlt, hw.left _ (List.getElem_mem hlt)⟩
+
+/-- `index out of range [0] with length 0` / `nil expression in range` -/
+theorem tot_execRange (hr : RecTot env r) (loc : Loc) (set : Option SetN) (e : Option Expr)
+    (hh : RangeHeadWf set e) (body : List Stmt) (hb : StmtsWf body) (els : Option (List Stmt))
+    (hels : StmtsOWf els) : Tot (execRange r env loc set e body els) := by
+  have hev := hr.evalExpr
+  unfold execRange
+  cases set with
+  | some st =>
+    have hw : RangeSetWf st := hh
+    obtain ⟨rgt, rest, h1, h2⟩ := hw.right
+    have hc := fun ex => tot_rangeCore hr loc (some st) (fun st' h' => by cases h'; exact hw) ex body hb els hels
+    dsimp only
+    rw [h1]
+    dsimp only
+    tot_tac [hev, hc]
+  | none =>
+    cases e with
+    | none => exact hh.elim
+    | some ex =>
+      have hw : ExprWf ex := hh
+      have hc := fun v => tot_rangeCore hr loc none (fun st' h' => by cases h') v body hb els hels
+      dsimp only
+      tot_tac [hev, hc]
+
+theorem tot_tryCatch (hr : RecTot env r) (hasCatch : Bool) (cv : Option Bytes)
+    (cb : Option (List Stmt)) (hcb : StmtsOWf cb) (errVal : Val) : Tot (tryCatch r env hasCatch cv cb errVal) := by
+  have hl := hr.execList
+  have hrun : Tot (match cb with
+      | some l => r.execList env l
+      | none => pure .invalid) := by
+    cases cb with
+    | none => exact tot_pure _
+    | some l => exact hl l hcb
+  unfold tryCatch
+  tot_tac
+
+/-- `executeTry`: `recover()` swallows every panic of the body -/
+theorem tot_executeTry (hr : RecTot env r) (body : List Stmt) (hbody : StmtsWf body) (hasCatch : Bool)
+    (cv : Option Bytes) (cb : Option (List Stmt)) (hcb : StmtsOWf cb) :
+    Tot (executeTry r env body hasCatch cv cb) := by
+  refine ⟨fun rt h => ?_⟩
+  unfold executeTry
+  have hb := (hr.execList body hbody).post (tryStart rt) (h.congr rfl rfl)
+  have handler : ∀ (errVal : Val) (rt2 : RT), RWF rt2 →
+      TPost (fun _ => True) (tryCatch r env hasCatch cv cb errVal (tryReset rt rt2)) := by
+    intro errVal rt2 k
+    exact (tot_tryCatch hr hasCatch cv cb hcb errVal).post _ (k.mix h rfl rfl)
+  cases hbr : r.execList env body (tryStart rt) with
+  | ok v rt2 =>
+    rw [hbr] at hb
+    obtain ⟨a1, _, a3⟩ := appendTo_same { rt2 with writer := rt.writer } rt.writer (rt2.sink (rt.nbufs + 1)).reverse
+    exact ⟨hb.1.congr a1 a3, trivial⟩
+  | err e rt2 => rw [hbr] at hb; exact handler _ rt2 hb
+  | crash s rt2 => rw [hbr] at hb; exact handler _ rt2 hb.2
+  | fuel => trivial
+  | unsupported w => trivial
+
+theorem tot_actionSet (hr : RecTot env r) (b : Bool) (set : Option SetN) (hs : SetOWf set) :
+    Tot (actionSet r env b set) := by
+  cases set with
+  | none => unfold actionSet; exact tot_pure _
+  | some st =>
+    have h1 := tot_executeAssign hr st hs
+    unfold actionSet
+    dsimp only
+    tot_tac
+
+theorem tot_actionPipe (he : EnvWf env) (hr : RecTot env r) (pipe : Option Pipe) (hp : PipeOWf pipe) :
+    Tot (actionPipe r env pipe) := by
+  cases pipe with
+  | none => unfold actionPipe; exact tot_pure _
+  | some p =>
+    have h1 := tot_evalPipeline he hr p hp
+    unfold actionPipe
+    dsimp only
+    tot_tac
+
+theorem tot_ifBranches (hr : RecTot env r) (c : Expr) (hc : ExprWf c) (t : List Stmt) (ht : StmtsWf t)
+    (e : Option (List Stmt)) (hels : StmtsOWf e) : Tot (ifBranches r env c t e) := by
+  have hev := hr.evalExpr
+  have hl := hr.execList
+  unfold ifBranches
+  cases e with
+  | none => dsimp only; tot_tac [hev, hl]
+  | some l => rw [StmtsOWf] at hels; dsimp only; tot_tac [hev, hl]
+
+theorem tot_execIf (hr : RecTot env r) (set : Option SetN) (hs : SetOWf set) (c : Expr) (hc : ExprWf c)
+    (t : List Stmt) (ht : StmtsWf t) (e : Option (List Stmt)) (hels : StmtsOWf e) :
+    Tot (execIf r env set c t e) := by
+  have h1 := tot_ifBranches hr c hc t ht e hels
+  cases set with
+  | none => unfold execIf; exact h1
+  | some st =>
+    have h2 := tot_executeAssign hr st hs
+    unfold execIf
+    dsimp only
+    tot_tac
+
+/-- `nil pointer dereference (yield without parameter list)`: only `yield content` lacks the list -/
+theorem tot_execYield (hr : RecTot env r) (loc : Loc) (name : Bytes) (params : Option (List Param))
+    (ctxE : Option Expr) (content : Option (List Stmt)) (isContent : Bool)
+    (hp : isContent = false → params.isSome = true) (hps : ParamsOWf params) (hx : ExprOWf ctxE)
+    (hc : StmtsOWf content) : Tot (execYield r env loc name params ctxE content isContent) := by
+  unfold execYield
+  split
+  · refine ⟨fun rt h => ?_⟩
+    rw [getRT_bind']
+    cases hcn : rt.content with
+    | none => exact ⟨h, trivial⟩
+    | some c => exact tpost_invokeContent hr c ctxE hx rt h (h.content c hcn)
+  · rename_i hic
+    refine TotQ.bind (totq_getBlock name) fun o ho => ?_
+    cases o with
+    | none => exact tot_errAt _ _
+    | some blk =>
+      have hb := ho blk rfl
+      cases params with
+      | none => have := hp (by simpa using hic); cases this
+      | some ps =>
+        dsimp only
+        exact tot_executeYieldBlock hr loc blk hb.body blk.params ps hb.params hps ctxE hx content hc
+
+theorem tot_execBlock (hr : RecTot env r) (loc : Loc) (name : Bytes) (params : List Param) (hps : ParamsWf params)
+    (ctxE : Option Expr) (hx : ExprOWf ctxE) (body : List Stmt) (hbd : StmtsWf body)
+    (content : Option (List Stmt)) (hc : StmtsOWf content) :
+    Tot (execBlock r env loc name params ctxE body content) := by
+  unfold execBlock
+  refine TotQ.bind (totq_getBlock name) fun o ho => ?_
+  cases o with
+  | none =>
+    dsimp only
+    exact tot_executeYieldBlock hr _ _ hbd _ _ hps hps _ hx _ hc
+  | some blk =>
+    have hb := ho blk rfl
+    dsimp only
+    exact tot_executeYieldBlock hr _ blk hb.body _ _ hb.params hb.params _ hb.ctx _ hb.content
+
+theorem tot_execStmt (he : EnvWf env) (hr : RecTot env r) (b : Bool) (s : Stmt) (hw : StmtWf s) :
+    Tot (execStmt r env b s) := by
+  cases s with
+  | text loc bts => unfold execStmt; dsimp only; tot_tac
+  | action loc set pipe =>
+    rw [StmtWf] at hw
+    have h1 := tot_actionSet hr b set hw.1
+    have h2 := tot_actionPipe he hr pipe hw.2
+    unfold execStmt; dsimp only; tot_tac
+  | ifS loc set cond thn els =>
+    rw [StmtWf] at hw
+    have h1 := tot_execIf hr set hw.1 cond hw.2.1 thn hw.2.2.1 els hw.2.2.2
+    unfold execStmt; dsimp only; tot_tac
+  | rangeS loc set e body els =>
+    rw [StmtWf] at hw
+    have h1 := tot_execRange hr loc set e hw.1 body hw.2.1 els hw.2.2
+    unfold execStmt; dsimp only; tot_tac
+  | block loc name params ctx body content =>
+    rw [StmtWf] at hw
+    have h1 := tot_execBlock hr loc name params hw.1 ctx hw.2.1 body hw.2.2.1 content hw.2.2.2
+    unfold execStmt; dsimp only; tot_tac
+  | yield loc name params ctx content isContent =>
+    rw [StmtWf] at hw
+    have h1 := tot_execYield hr loc name params ctx content isContent hw.1 hw.2.1 hw.2.2.1 hw.2.2.2
+    unfold execStmt; dsimp only; tot_tac
+  | «include» loc name ctx =>
+    rw [StmtWf] at hw
+    have h1 := tot_executeInclude he hr loc name hw.1 ctx hw.2
+    unfold execStmt; dsimp only; tot_tac
+  | tryS loc body hc cv cb =>
+    rw [StmtWf] at hw
+    have h1 := tot_executeTry hr body hw.1 hc cv cb hw.2
+    unfold execStmt; dsimp only; tot_tac
+  | ret loc e =>
+    rw [StmtWf] at hw
+    have h1 := hr.evalExpr e hw
+    unfold execStmt; dsimp only; tot_tac
+
+theorem tpost_execListGo (he : EnvWf env) (hr : RecTot env r) :
+    ∀ (l : List Stmt) (rv : Val) (b : Bool) (rt : RT), StmtsWf l → RWF rt →
+      TPost (fun _ => True) (execListGo r env l rv b rt) := by
+  intro l
+  induction l with
+  | nil => intro rv b rt _ h; exact ⟨h, trivial⟩
+  | cons s rest ih =>
+    intro rv b rt hw h
+    rw [StmtsWf] at hw
+    unfold execListGo
+    have h1 := (tot_execStmt he hr b s hw.1).post rt h
+    cases hs : execStmt r env b s rt with
+    | ok x rt1 =>
+      rw [hs] at h1
+      obtain ⟨ret, rv2, ins⟩ := x
+      dsimp only
+      exact ih _ ins rt1 hw.2 h1.1
+    | err e rt1 =>
+      rw [hs] at h1
+      dsimp only
+      split
+      · exact rwf_popScope h1
+      · exact h1
+    | crash m rt1 =>
+      rw [hs] at h1
+      dsimp only
+      refine ⟨h1.1, ?_⟩
+      split
+      · exact rwf_popScope h1.2
+      · exact h1.2
+    | fuel => trivial
+    | unsupported w => trivial
+
+theorem tot_execListF (he : EnvWf env) (hr : RecTot env r) (l : List Stmt) (hw : StmtsWf l) :
+    Tot (execListF r env l) := by
+  refine ⟨fun rt h => ?_⟩
+  unfold execListF
+  have h1 := tpost_execListGo he hr l .invalid false rt hw h
+  cases hg : execListGo r env l .invalid false rt with
+  | ok x rt1 =>
+    rw [hg] at h1
+    obtain ⟨v, ins⟩ := x
+    dsimp only
+    refine ⟨?_, trivial⟩
+    split
+    · exact rwf_popScope h1.1
+    · exact h1.1
+  | err e rt1 => rw [hg] at h1; exact h1
+  | crash m rt1 => rw [hg] at h1; exact h1
+  | fuel => trivial
+  | unsupported w => trivial
+
+/-- one level of the interpreter preserves the invariant -/
+theorem recTot_step (he : EnvWf env) (hr : RecTot env r) : RecTot env (stepRec r) :=
+  ⟨fun e hw => tot_evalExprF he hr e hw, fun l hw => tot_execListF he hr l hw,
+   fun e hw => tot_isSetF hr e hw, fun _ => totq_errAt _ _⟩
+
+/-- the invariant holds at every fuel level -/
+theorem recTot_recAt (he : EnvWf env) : ∀ n, RecTot env (recAt n)
+  | 0 => recTot_bottom env
+  | n + 1 => recTot_step he (recTot_recAt he n)
 
 end JetVerif.Eval
